@@ -53,9 +53,10 @@ def one_case(args):
     data = s.serialize()
     path = os.path.join(wd, "c%d.raw" % case)
     write_file(path, data)
-    mode = rng.choice(["all", "all_its", "all_its", "all_its_stave", "all_its_stave", "view rdh", "view its-readout-frames"])
-    opts = rng.choice([[], [], ["-m"]])
-    fmt = rng.choice(["json", "toml"])
+    # stratified: half of the cases in stave mode (the only mode where several kinds of statistics are merged from many threads)
+    mode = ["all_its_stave", "all_its", "all_its_stave", "all", rng.choice(["view rdh", "view its-readout-frames"]), "all_its_stave"][case % 6]
+    opts = [[], [], [], ["-m"]][case % 4]
+    fmt = ["json", "toml"][(case // 2) % 2]
     argv = [path] + (obs.MODES[mode] if mode in obs.MODES else mode.split() + rng.choice([[], ["-d"]])) + opts
     try:
         ref = obs.run(exe, argv, workdir=wd, stats=fmt, tag="c%d" % case)
